@@ -221,6 +221,23 @@ def check(case, ctx):
     if gs.bits(p2) != gs.bits(bp) or type(p2) is not cls:
         return ctx.fail("iadd", "p += delta differs from p + delta")
 
+    # ---- results are independent objects: computing another result must not change one that is still held
+    held = [("a+b", a + b), ("a-b", a - b), ("a.inverse", a.inverse), ("a+point", a + pt), ("a+delta", a + d), ("a.copy()", a.copy())]
+    snap = [gs.bits(r) for _, r in held]
+    _ = c + b, c - b, c.inverse, c + pt, b + pt, c + d, b + (0.5 * d), c.copy(), b.copy()
+    _ = cls.identity()
+    for (name, r), sb in zip(held, snap):
+        if gs.bits(r) != sb:
+            return ctx.fail("result-overwritten-by-later-call", "the result of %s changed when the same operation was applied to other operands" % name)
+    for i in range(len(held)):
+        for j in range(i + 1, len(held)):
+            if np.shares_memory(np.asarray(held[i][1]), np.asarray(held[j][1])):
+                return ctx.fail("result-overwritten-by-later-call", "results of %s and %s share memory" % (held[i][0], held[j][0]))
+    for name, r in held:
+        for on, o in (("a", a), ("b", b), ("pt", pt)):
+            if np.shares_memory(np.asarray(r), np.asarray(o)):
+                return ctx.fail("result-aliases-operand", "the result of %s shares memory with operand %s" % (name, on))
+
     # ---- history: a pose is an ndarray and may legitimately be modified in place (normalize() does); results must
     #      follow the current contents (no value cached on the instance by an earlier call)
     a2 = a.copy()
